@@ -496,6 +496,9 @@ impl<L: Localize> Iterator for TimeDomainIterator<L> {
 
             if let Some(max_interval_size) = self.opening_hours.ctx.approx_bound_interval_size {
                 if end - start > max_interval_size {
+                    // This interval is considered as infinite: no other interval may follow it.
+                    (&mut self.curr_schedule).for_each(|_| {});
+
                     return Some(DateTimeRange::new_with_sorted_comments(
                         start..DATE_END,
                         curr_tr.kind,
